@@ -292,7 +292,7 @@ def gen_placement(shape_f, mode, beh, phase_idx, action, after, mid):
         cs.add("beh 0 0 " + beh)
     cs.add("arrive 0 1")
     cs.bodies[(0, 0)] = sh.body
-    st = sh.settle + (4 if "s" in beh else 0)
+    st = sh.settle + (8 if "s" in beh else 0)
     if cut > 0:
         cs.add(send_line(0, sh, 0, cut), "settle %d" % st)
     else:
@@ -313,7 +313,7 @@ def gen_placement(shape_f, mode, beh, phase_idx, action, after, mid):
         if after == "pipeline" and not ended:
             g = shape_get()
             cs.bodies[(0, 1)] = b""
-            cs.add(send_line(0, g, 0, len(g.data)), "settle 6")
+            cs.add(send_line(0, g, 0, len(g.data)), "settle 8")
         cs.add("stop")
     cs.tags = [sh.name, mode, action, "beh:" + (beh or "dflt")]
     return cs
@@ -360,7 +360,7 @@ def gen_random(rng, idx):
                 break
             sh, a, z = streams[c].pop(0)
             cs.add(send_line(c, sh, a, z))
-        cs.add("settle %d" % rng.choice([6, 8, 10]))
+        cs.add("settle %d" % rng.choice([24, 30]))
         if act_budget and rng.random() < 0.3:
             act_budget -= 1
             a = rng.choice(["shutwr", "cclose", "tick", "stop", "tick"])
@@ -368,14 +368,14 @@ def gen_random(rng, idx):
                 cs.add("stop"); stopped = True
                 break
             if a == "tick":
-                cs.add("tick 6000", "settle 8")
+                cs.add("tick 6000", "settle 24")
                 alive = [False] * nconn   # everything idle has timed out (suspended ones come back later)
                 break
             k = rng.choice([c2 for c2 in range(nconn) if alive[c2]])
-            cs.add("%s %d" % (a, k), "settle 8")
+            cs.add("%s %d" % (a, k), "settle 24")
             alive[k] = False
     if not stopped:
-        cs.add("settle 10", "stop")
+        cs.add("settle 24", "stop")
     cs.tags = ["random", mode, "conns:%d" % nconn]
     return cs
 
@@ -467,7 +467,9 @@ def canon(lines, harness):
 
     def flush(c):
         if c in pend_up:
-            per.setdefault(c, []).append("up:%d" % pend_up.pop(c))
+            n = pend_up.pop(c)
+            if n:    # calls in which nothing was taken repeat every round: how often is a matter of timing
+                per.setdefault(c, []).append("up:%d" % n)
 
     def push(c, tok, collapse=False):
         flush(c)
